@@ -87,7 +87,7 @@ Lemma micro_bal c tid s l s' :
   own_ok c s tid l -> loc_ok c s tid l -> micro_sh c tid s l = Some s' ->
   bal_ok s /\ nn_ok s -> bal_ok s' /\ nn_ok s'.
 Proof.
-  intros [Hwf [Hreg Hex]] [Hmir Hloc] Hm [Hb Hn]. unfold local_ok in Hloc. unfold micro_sh in Hm.
+  intros [Hwf [Hreg [Hex Hsn]]] [Hmir Hloc] Hm [Hb Hn]. unfold local_ok in Hloc. unfold micro_sh in Hm.
   pose proof (fun p => cur_bal_nonneg _ _ _ p Hn) as Hcb.
   destruct (micro c tid s l) as [|s1 l1|s1 d1] eqn:Hmm; inversion Hm; subst; clear Hm.
   all: own_cases Hmm Hwf; unfold bal_ok, nn_ok in *; cbn in *; try (split; assumption).
